@@ -94,7 +94,7 @@ class Scenario:
                 threading.settrace(old[1])
             self.loaded = [p.name for p in d.config.plugins if p.name.startswith('P') and p.name[1:].isdigit()]
             self.resource = dict(d.config.resource.attributes) if d.config.resource else {}
-            for _ in range(2):
+            for _ in range(4):
                 g = two_line_frame()
                 try:
                     lab.CLOCK.advance_ms(5)
@@ -126,7 +126,7 @@ class C20(Prop):
     level = 'fault_enumeration'
     rule = ('plugin set of 0-4 synthetic plugins (roles from resource/decorator/logger/span/metric, order -2..3 incl. '
             'equal, state ok / missing module / missing class / raising constructor / switched off) x built-in python '
-            'plugin on/off; scenario = start, two hits of a snapshot+log+2-metric+span tracepoint, shutdown; fault '
+            'plugin on/off; scenario = start, four hits of a snapshot+log+2-metric+span tracepoint, shutdown; fault '
             'placements = (plugin, callback, call index) over the calls of the fault-free run - sampled (quick) or all '
             '(thorough); non-trivial = >= 2 active plugins and >= 1 placement that fired; distinct = distinct recipe')
     assumptions = ['plugin faults are Exception subclasses (BaseException from plugins is exercised for transparency in C01)',
@@ -190,8 +190,12 @@ class C20(Prop):
             placements.append((int(name[1:]), cb, seen[(name, cb)]))
         if not placements:
             return out
-        chosen = placements if recipe['all_placements'] else \
-            [placements[i % len(placements)] for i in dict.fromkeys(recipe['placements'])]
+        # besides "the k-th call fails": "every call fails" (a plugin that is simply broken), once per (plugin, callback)
+        always = sorted({(pi, cb, 'all') for (pi, cb, n) in placements})
+        pool = placements + always
+        chosen = pool if recipe['all_placements'] else \
+            [pool[i % len(pool)] for i in dict.fromkeys(recipe['placements'])] + \
+            [always[i % len(always)] for i in list(dict.fromkeys(recipe['placements']))[:2]]
         base_calls = {}
         for name, cb, detail in base.world.calls:
             base_calls.setdefault(name, []).append((cb, _norm(detail)))
